@@ -512,15 +512,17 @@ fn main() {
         );
     }
 
-    ctx.run_prop("random-constructors", arb_raw(), tier.pick(2_000_000, 40_000_000), |x| check_constructors(*x));
-    ctx.run_prop("random-pairs", (arb_in_range(), arb_in_range()), tier.pick(8_000_000, 200_000_000), |(a, b)| check_pair(*a as i128, *b as i128));
-    let arb_mul = prop_oneof![
-        2 => proptest::sample::select(multipliers()),
-        2 => any::<u64>(),
-        2 => 0u64..20_000,
-        1 => (0u64..64).prop_map(|s| 1u64 << s),
-    ];
-    ctx.run_prop("random-mul-div", (arb_in_range(), arb_mul), tier.pick(4_000_000, 80_000_000), |(a, m)| check_mul_div(*a as i128, *m));
-    ctx.run_prop("random-sum-lists", proptest::collection::vec(arb_in_range(), 0..8), tier.pick(1_000_000, 20_000_000), |v| check_sum_list(v));
+    ctx.run_prop("random-constructors", arb_raw, tier.pick(2_000_000, 40_000_000), |x| check_constructors(*x));
+    ctx.run_prop("random-pairs", || (arb_in_range(), arb_in_range()), tier.pick(8_000_000, 200_000_000), |(a, b)| check_pair(*a as i128, *b as i128));
+    let arb_mul = || {
+        prop_oneof![
+            2 => proptest::sample::select(multipliers()),
+            2 => any::<u64>(),
+            2 => 0u64..20_000,
+            1 => (0u64..64).prop_map(|s| 1u64 << s),
+        ]
+    };
+    ctx.run_prop("random-mul-div", || (arb_in_range(), arb_mul()), tier.pick(4_000_000, 80_000_000), |(a, m)| check_mul_div(*a as i128, *m));
+    ctx.run_prop("random-sum-lists", || proptest::collection::vec(arb_in_range(), 0..8), tier.pick(1_000_000, 20_000_000), |v| check_sum_list(v));
     ctx.finish();
 }
